@@ -348,6 +348,84 @@ func c16Run(c *CaseC16, perm, perm2, dup []int) c16Result {
 	return r
 }
 
+// c16Disturb derives a related argument list: variant 0 moves every box one zoom finer keeping its index numbers,
+// variant 1 one zoom coarser keeping its index numbers (where still valid), variant 2 shifts indices by one.
+func c16Disturb(c *CaseC16, variant int) *CaseC16 {
+	mod := func(bs []ref.Box) []ref.Box {
+		out := make([]ref.Box, 0, len(bs))
+		for _, b := range bs {
+			n := b
+			switch variant {
+			case 0:
+				n.H, n.V = b.H+1, b.V+1
+			case 1:
+				n.H, n.V = b.H-1, b.V-1
+			default:
+				n.X, n.F = b.X+1, b.F+1
+			}
+			if n.Valid() && (b.H != b.V || spatialValid(n) || !spatialValid(b)) {
+				out = append(out, n)
+			} else {
+				out = append(out, b)
+			}
+		}
+		return out
+	}
+	d := *c
+	switch c.Op {
+	case "zoom":
+		x := *c.C03
+		x.Boxes = mod(x.Boxes)
+		x.H, x.V = boundTargets(x.Boxes, x.H, x.V, x.Spatial)
+		d.C03 = &x
+	case "merge":
+		x := *c.C04
+		x.Boxes = mod(x.Boxes)
+		d.C04 = &x
+	case "overlap":
+		x := *c.C05
+		x.A, x.B = mod(x.A), mod(x.B)
+		d.C05 = &x
+	case "neighbours":
+		x := *c.C08
+		x.Boxes = mod(x.Boxes)
+		d.C08 = &x
+	case "quadkeys", "altkeys", "quadkeys-back":
+		x := *c.C11
+		x.Boxes = mod(x.Boxes)
+		for i := range x.Boxes {
+			if x.Boxes[i].H < 1 || x.Boxes[i].H > 31 || (c.Op == "altkeys" && x.Boxes[i].V > 25) {
+				x.Boxes[i] = c.C11.Boxes[i]
+			}
+		}
+		d.C11 = &x
+	case "tiles":
+		x := *c.C13
+		x.Tiles = append([]Tile(nil), x.Tiles...)
+		for i := range x.Tiles {
+			switch variant {
+			case 0:
+				if x.Tiles[i].V < 35 {
+					x.Tiles[i].V++
+				}
+			case 1:
+				if x.Tiles[i].H < 35 {
+					x.Tiles[i].H++
+				}
+			default:
+				x.Tiles[i].X++
+			}
+		}
+		if !c13Bounded(&x) {
+			return nil
+		}
+		d.C13 = &x
+	default:
+		return nil
+	}
+	return &d
+}
+
 func sameStrings(a, b []string) bool {
 	if len(a) != len(b) {
 		return false
@@ -391,8 +469,13 @@ func checkC16(c *CaseC16, fl *Fails) {
 	if base.dup != "" {
 		fl.Add("duplicate", "%s: result contains %s twice", desc, base.dup)
 	}
-	// repeated calls
+	// repeated calls, with "disturbing" calls in between: the same operation on arguments that share numbers with
+	// the case (same x, y, f at another zoom; neighbouring indices at the same zoom). A result must not depend on
+	// what was called before (no hidden state such as a cache keyed by too few components).
 	for i := 0; i < 3; i++ {
+		if d := c16Disturb(c, i); d != nil {
+			_ = c16Run(d, nil, nil, nil)
+		}
 		again := c16Run(c, nil, nil, nil)
 		if again.err != base.err || !sameStrings(again.set, base.set) {
 			fl.Add("nondeterministic-"+c.Op, "%s: two identical calls returned different sets (%d vs %d elements; e.g. %q)", desc, len(base.set), len(again.set), firstDiff(base.set, again.set))
@@ -423,7 +506,7 @@ func checkC16(c *CaseC16, fl *Fails) {
 func init() {
 	register(PropT[CaseC16]{
 		ID:   "C16",
-		Rule: "rapid: an operation (zoom change, merge, overlap, line, corridor, N-layer + 6/8/26 neighbourhoods, quadkey / altitude-key conversion, quadkey back-conversion, tile conversion; both notations where they exist) with an argument list drawn from that operation's own generator (C03, C04, C05, C06, C14, C08, C11, C13), plus a permutation of every list argument (rapid.Permutation) and 0..3 entries repeated. Oracle: 4 identical calls return equal sets; the permuted and the duplicated input return the same set (overlap: the same boolean); de-duplicated results contain no element twice; a deep copy of every input slice / object taken before the call equals it afterwards. Line and corridor take points: repeat-determinism and input preservation only. Non-trivial: list length>=3 with a repeated entry and a non-identity permutation; every line/corridor case.",
+		Rule: "rapid: an operation (zoom change, merge, overlap, line, corridor, N-layer + 6/8/26 neighbourhoods, quadkey / altitude-key conversion, quadkey back-conversion, tile conversion; both notations where they exist) with an argument list drawn from that operation's own generator (C03, C04, C05, C06, C14, C08, C11, C13), plus a permutation of every list argument (rapid.Permutation) and 0..3 entries repeated. Oracle: 4 identical calls return equal sets, with calls of the same operation on related arguments (same index numbers at a neighbouring zoom, neighbouring indices) in between: a result must not depend on the call history; the permuted and the duplicated input return the same set (overlap: the same boolean); de-duplicated results contain no element twice; a deep copy of every input slice / object taken before the call equals it afterwards. Line and corridor take points: repeat-determinism and input preservation only. Non-trivial: list length>=3 with a repeated entry and a non-identity permutation; every line/corridor case.",
 		Assumptions: []string{
 			"map iteration order is re-randomised by the Go runtime per range statement, so repeated calls inside one process sample different orders; an order dependence with probability p per call is seen by 4 calls with probability 1-p^4-(1-p)^4 per case",
 			"ConvertTileXYZsToSpatialIDs is documented as a plain expansion (not de-duplicated): compared as a set only",
